@@ -179,7 +179,8 @@ def gen_case(rng, rich=True):
             mc = [p[0], claim[0], [rng.choice(enum_fields)], release[0]]
     pc['mc'] = mc
     cfg = {'file': rng.choice(['Toaster.dzn', 'dir/sub/Model.dzn', 'My.Model.dzn', comp_name + '.dzn', 'Garden.dzn', 'sub/Buzz.dzn', 'Fond.dzn',
-                              'models/rev.3/Toaster.dzn', 'models/rev.3/Kettle', '../shared.models/Oven', 'Plain', './a.b/c.d/Model.dzn']),
+                              'models/rev.3/Toaster.dzn', 'models/rev.3/Kettle', '../shared.models/Oven', 'Plain', './a.b/c.d/Model.dzn',
+                              'Lamp.DZN', 'Kettle.dezyne', 'out/Oven.txt', 'models/.Hidden.dzn']),
            'suffix': rng.choice(['AdvShell', 'Shell', '_Impl']), 'enc': comp_scope + [comp_name], 'ports': pc,
            'fac': rng.choice(['create', 'import']), 'copyright': rng.choice(['Copyright (c) 2024 X', '(c) a\n(c) b', '', 'line\n\n  indented', 'Copyright \u00a9 2024 \u00dcn\u00efc\u00f6de \u20ac \U0001f600',
                                    'Cafe\u0301 Zu\u0308rich \u212b \u2126 \ufb01 (not NFC-normalised)']),
